@@ -10,7 +10,8 @@ import os
 
 from .env import VERIF
 
-PATH = os.path.join(VERIF, "known_findings.json")
+# VERIF_FINDINGS is for the self-test of this mechanism only; registered commands never set it
+PATH = os.environ.get("VERIF_FINDINGS") or os.path.join(VERIF, "known_findings.json")
 
 
 def load() -> list[dict]:
